@@ -23,6 +23,28 @@ CHECKS = {
         design='3 (C01)',
         note='crash model = prefix of issued ops with a torn last write (the '
              'quantifier of the property); no reordering of unsynced writes'),
+    'C02': dict(
+        technique='stateless preemption-bounded exploration (iterative '
+                  'context bounding) of real threads under a controlled '
+                  'scheduler, plus all interleavings of step programs; '
+                  'interval oracle on logged reads',
+        text='Six 2-3 thread harnesses (writer with two commits, reader with '
+             'two transactions hitting the cache, pool user whose connection '
+             'receives invalidations while closed, reader with begin, '
+             'read-writer, two writers) over a real DB on FileStorage and '
+             'MappingStorage: every schedule with <= 2 preemptions (3 '
+             'thorough; 3-thread harnesses one less), points at every lock '
+             'op, recorded I/O op and raw read beyond the committed end; a '
+             'line-level pass over mvccadapter/FilePool/Connection.open/'
+             'newTransaction stands in for a race detector. All merges of '
+             'pairs (triples) of 10 step programs are run as well. Every '
+             'transaction\'s reads must share a point of the commit order '
+             'that is not older than the last commit returned before its '
+             'boundary, with the stored values.',
+        design='5 (C02)',
+        note='GIL semantics; bytecode-level interleavings only in the listed '
+             'functions; set iteration order of MVCC instances is owned by '
+             'the harness'),
     'C04': dict(
         technique='explicit-state exploration of all operation sequences up '
                   'to a depth on the real storages, full query battery vs a '
